@@ -55,14 +55,20 @@ T2 = z3.Function("sorted_local_time", E.I, E.Ref)
 F2 = z3.Function("sorted_offset_from", E.I, E.I)
 O2 = z3.Function("sorted_offset_to", E.I, E.I)
 N2 = z3.Function("sorted_name", E.I, E.S)
+K2 = z3.Function("sorted_is_daylight", E.I, E.B)
 
 
 class TailEngine(seqs.SeqEngine):
     """SeqEngine plus list.sort on the abstract list of transitions: afterwards the list is SOME arrangement of its elements that
     is ordered by the key (ASSUMED contract of list.sort; the key function is the real lambda, evaluated symbolically)"""
 
+    arity = 5           # (local time, TZOFFSETFROM, TZOFFSETTO, name, kind); 4 on trees where the kind is looked up by name
+
     def elem(self, j):
-        return E.VTuple([E.VRef(T2(j)), E.VTd(F2(j)), E.VTd(O2(j)), E.VStr(N2(j))])
+        items = [E.VRef(T2(j)), E.VTd(F2(j)), E.VTd(O2(j)), E.VStr(N2(j))]
+        if self.arity == 5:
+            items.append(E.VInt(z3.If(K2(j), 1, 0)))
+        return E.VTuple(items)
 
     def assign(self, tgt, v, st):
         # ground instances of the element invariant (local times are naive datetimes) for the index at hand
@@ -141,8 +147,8 @@ def tail_statements(node):
         raise E.Undecided("the collection loop `for component in self.walk()` was not found")
     loop = body[idx[0]]
     src = ast.unparse(loop)
-    if "transitions.extend(component_transitions)" not in src or "self._extract_offsets(" not in src:
-        raise E.Undecided("the collection loop no longer extends `transitions` with _extract_offsets(component, tzname)")
+    if "transitions.extend(" not in src or "self._extract_offsets(" not in src:
+        raise E.Undecided("the collection loop no longer extends `transitions` with the result of _extract_offsets(component, tzname)")
     return body[idx[0] + 1:]
 
 
@@ -161,6 +167,14 @@ def order_obligations(rep, tier):
     lat = E.Lattice()
     for m in ("caselessdict", "parser", "prop", "cal"):
         lat.load_module(m)
+    # how many fields a transition has: read from the target of the info loop
+    TailEngine.arity = 4
+    for x in tail:
+        if isinstance(x, ast.For) and "enumerate(transitions)" in ast.unparse(x.iter) and isinstance(x.target, ast.Tuple) and len(x.target.elts) == 2 \
+                and isinstance(x.target.elts[1], ast.Tuple):
+            TailEngine.arity = len(x.target.elts[1].elts)
+    if TailEngine.arity not in (4, 5):
+        return [ob_from(f"{PID}.G.get_transitions", fn, lines, UNDECIDED, f"transitions have {TailEngine.arity} fields")]
     eng = TailEngine(lat, {})
     dtc.register(eng.contracts)
     st = E.State()
@@ -311,7 +325,8 @@ def info_obligations(rep, tier, node, tail, lat):
         compare.fold_status(o1, status, secs, inf, "appended tuple")
         dstv = eng.unbox_known(dstv, s)
         zero = dstv.us == 0 if isinstance(dstv, E.VTd) else z3.BoolVal(False)
-        status, secs, inf = check_vc(eng.axioms, [*s.pc, *s.qpc], z3.Implies(z3.Not(is_dst(N2(k))), zero), T)
+        standard = z3.Not(K2(k)) if TailEngine.arity == 5 else z3.Not(is_dst(N2(k)))
+        status, secs, inf = check_vc(eng.axioms, [*s.pc, *s.qpc], z3.Implies(standard, zero), T)
         compare.fold_status(o2, status, secs, inf, "dst of a STANDARD transition")
     if n == 0 and o1.status == PROVED:
         o1.status = o2.status = UNDECIDED
